@@ -285,7 +285,7 @@ func runC16(w *mon.W) {
 		}
 	}
 	// fresh keys
-	nf := w.Share(w.Pick(300, 5000))
+	nf := w.Share(w.Pick(800, 5000))
 	for i := 0; i < nf; i++ {
 		var priv crypto.PrivKey
 		var d did.DID
@@ -531,7 +531,7 @@ func runC16(w *mon.W) {
 		}
 	}
 	// unsupported codecs over plausible material, and random strings
-	for i := 0; i < w.Share(w.Pick(3000, 60000)); i++ {
+	for i := 0; i < w.Share(w.Pick(9000, 60000)); i++ {
 		var s string
 		switch i % 4 {
 		case 0:
